@@ -1296,6 +1296,12 @@ func (rn *run) respond(w http.ResponseWriter, form, codec string, herr int) {
 		status = hd.Status
 		h.Set("Content-Type", "text/plain")
 		body = []byte("upstream says no\n")
+		if end.Style == "jsoncode" {
+			// a JSON error body of the backend's own making: it is not the protocol's error object (unknown
+			// member), but it begins with a numeric "code" that must not be taken for an RPC code
+			h.Set("Content-Type", "application/json")
+			body = []byte(`{"code":7,"reason":"maintenance"}`)
+		}
 		rn.writeResponse(w, status, body, nil)
 		return
 	}
